@@ -180,7 +180,8 @@ for directed in (False, True):
             REG.add("slice_%s_%s_%s%s" % ("d" if directed else "u", shape, {"narrow_window": "w", "short_runs": "r", "fixed_lens": "f"}[mode],
                                           par if not two else "%d%d" % par),
                     T_slice, body, cfg=cfg, tier="quick" if quick else "thorough", timeout=900 if quick else 3000,
-                    tags=["q_kept", "q_cut", "run_clipped", "invalid_window", "empty_result"], twins=1,
+                    # single-instant runs (lens (0,0)) cannot be clipped
+                    tags=["q_kept", "q_cut", "invalid_window", "empty_result"] + ([] if par == (0, 0) else ["run_clipped"]), twins=1,
                     bounds="%s, shape %s with symbolic canonical timelines, isolated node 9 and node attributes; %s; unbounded t_from, "
                            "t_to (valid and invalid), q" % ("DynDiGraph" if directed else "DynGraph", shape, bnd),
                     what="H has G's class; H.has_interaction(u,v,q) iff t_from<=q<=t_to and present in G at q (both orders if "
